@@ -18,6 +18,12 @@ GUARD_KERNELS = True
 SHRINK_LISTS = ("ops", "faults", "ranges", ("files", "nsamps"))
 SHRINK_MIN = {"nchans": 2, "nbits": 1, "gulp": 1}
 FCH1, FOFF = 1500.0, -0.5
+BANDS = [(1500.0, -0.5), (1581.804688, -0.390625), (1400.1, 0.3)]  # float32-exact and not
+
+
+def band_of(sc):
+    b = sc.get("band")
+    return tuple(b) if b else (FCH1, FOFF)
 
 
 def warm() -> None:
@@ -28,15 +34,18 @@ def warm() -> None:
 
 
 # ------------------------------------------------------------------ generation
-def gen_ranges(rng, nchans):
-    cen = [FCH1 + c * FOFF for c in range(nchans)]
-    lo_band, hi_band = cen[-1], cen[0]
+def gen_ranges(rng, nchans, band=(FCH1, FOFF)):
+    fch1, foff = band
+    cen = [fch1 + c * foff for c in range(nchans)]  # centres as the header defines them, in double precision
+    if rng.random() < 0.3:  # ... or as the float32 channel-frequency array holds them
+        cen = [float(x) for x in (np.arange(nchans, dtype=np.float32) * foff + fch1)]
+    lo_band, hi_band = min(cen), max(cen)
     out = []
     for _ in range(rng.choice([0, 1, 1, 2, 3])):
         r = rng.random()
         if r < 0.3:  # exactly on channel centres
             a, b = sorted(rng.sample(range(nchans), 2)) if nchans > 1 else (0, 0)
-            out.append([cen[b], cen[a]])
+            out.append(sorted([cen[b], cen[a]]))
         elif r < 0.45:
             c = rng.randrange(nchans)
             out.append([cen[c], cen[c]])
@@ -45,10 +54,7 @@ def gen_ranges(rng, nchans):
         else:
             a = rng.uniform(lo_band - 1, hi_band + 1)
             b = a + rng.uniform(0, 4)
-            # keep ends away from centres (margin rule)
-            a = round(a * 2) / 2 + 0.13
-            b = round(b * 2) / 2 + 0.21
-            out.append([a, b])
+            out.append([a, b])  # ends that fall within 1e-3 MHz of a centre are rejected at execution (margin rule)
     return out
 
 
@@ -69,25 +75,27 @@ def gen_stats(rng, nchans):
 def generate(rng, tier) -> dict:
     if rng.random() < 0.55:
         nchans = rng.randint(2, 32)
+        band = rng.choice(BANDS)
         stats, fam = gen_stats(rng, nchans)
         ops = []
         for _ in range(rng.randint(1, 6)):
             k = rng.random()
             if k < 0.4:
-                ops.append({"op": "apply_mask", "ranges": gen_ranges(rng, nchans)})
+                ops.append({"op": "apply_mask", "ranges": gen_ranges(rng, nchans, band)})
             elif k < 0.75:
                 ops.append({"op": "apply_method", "method": rng.choice(["mad", "iqrm"])})
             else:
                 ops.append({"op": "apply_funcn", "fn": rng.choice(["identity", "none", "every3", "first", "last"])})
-        return {"kind": "mask", "nchans": nchans, "threshold": rng.choice([3.0, 2.0, 5.0, 1.5]), "stats": stats, "family": fam, "ops": ops, "faults": []}
+        return {"kind": "mask", "nchans": nchans, "band": list(band), "threshold": rng.choice([3.0, 2.0, 5.0, 1.5]), "stats": stats, "family": fam, "ops": ops, "faults": []}
     nbits = rng.choice([1, 2, 4, 8, 8, 32])
     nchans = rng.choice([c for c in (2, 4, 8, 12, 16) if (c * nbits) % 8 == 0])
     nfiles = rng.choice([1, 1, 2])
     mx = 60 if tier == "quick" else 200
     counts = [rng.randint(4, mx // nfiles) for _ in range(nfiles)]
     N = sum(counts)
+    band = rng.choice(BANDS)
     spec = {"nbits": nbits, "nchans": nchans, "nsamps": counts, "pad": [0] * nfiles, "vseed": rng.randrange(1 << 16),
-            "mode": "small", "fch1": FCH1, "foff": FOFF}
+            "mode": "small", "fch1": band[0], "foff": band[1]}
     r = rng.random()
     if r < 0.4:
         start, nsamps = 0, None
@@ -99,7 +107,7 @@ def generate(rng, tier) -> dict:
     ns = N - start if nsamps is None else nsamps
     top = (1 << nbits) - 1 if nbits < 32 else 100
     sc = {"kind": "clean", "files": spec, "start": start, "nsamps": nsamps, "method": rng.choice(["mad", "iqrm"]),
-          "threshold": rng.choice([3.0, 2.0, 1.5]), "ranges": gen_ranges(rng, nchans), "fn": rng.choice([None, None, "every3", "first", "last", "none"]),
+          "threshold": rng.choice([3.0, 2.0, 1.5]), "ranges": gen_ranges(rng, nchans, band), "fn": rng.choice([None, None, "every3", "first", "last", "none"]),
           "mask_value": rng.choice([None, 0, top, rng.randint(0, top)] + ([-1.5, 2.75, -100.0] if nbits == 32 else [])),
           "ops": [{"gulp": max(1, rng.choice([1, 2, 3, rng.randint(1, ns), ns, ns + 2, max(1, ns // 3)]))} for _ in range(2)], "faults": []}
     if rng.random() < 0.2:
@@ -163,18 +171,25 @@ def custom_fn(name):
     return {"identity": identity, "none": none, "every3": every3, "first": first, "last": last}[name]
 
 
-def model_user(chan_freqs32, ranges, ctx=None):
-    f = chan_freqs32.astype(np.float64)
-    m = np.zeros(len(f), dtype=bool)
+def model_user(chan_freqs32, ranges, ctx=None, band=None):
+    """Closed-interval membership of the channel centres.  The library represents channel frequencies
+    in float32; a range end is "on" a centre when it equals it at that precision (float32(end) ==
+    centre) - then that channel is inside - or it is at least 1e-3 MHz away from every centre.
+    Anything in between is rejected (margin rule: the representation would decide, not the property)."""
+    c32 = chan_freqs32.astype(np.float64)
+    m = np.zeros(len(c32), dtype=bool)
     for lo, hi in ranges:
         for end in (lo, hi):
-            d = np.abs(f - end)
-            on = d == 0
+            e32 = float(np.float32(end))
+            d = np.abs(c32 - end)
+            on = c32 == e32
             if np.any((d < 1e-3) & ~on):
                 raise Rejected("range end within 1e-3 MHz of a channel centre")
             if on.any() and ctx is not None:
                 ctx.probe("range-exactly-on-channel-centre")
-        m |= (f >= lo) & (f <= hi)
+                if e32 != end:
+                    ctx.probe("range-end-on-a-centre-not-exact-in-float32")
+        m |= (c32 >= lo - 5e-4) & (c32 <= hi + 5e-4)
     return m
 
 
@@ -218,7 +233,8 @@ def exec_mask(sc, ctx) -> None:
     from .c04 import base_header
 
     n = sc["nchans"]
-    hdr = base_header(ctx, 1).new_header({"nchans": n, "fch1": FCH1, "foff": FOFF, "nbits": 8})
+    band = band_of(sc)
+    hdr = base_header(ctx, 1).new_header({"nchans": n, "fch1": band[0], "foff": band[1], "nbits": 8})
     st = {k: np.array(v, dtype=np.float32) for k, v in sc["stats"].items()}
     thr = sc["threshold"]
     m = RFIMask(thr, hdr, st["mean"], st["var"], st["skew"], st["kurt"], st["maxima"], st["minima"])
@@ -238,7 +254,7 @@ def exec_mask(sc, ctx) -> None:
             return Violation(f"C16/{op['op']}/{clause}", detail, info)
 
         if op["op"] == "apply_mask":
-            want = model_user(freqs32, op["ranges"], ctx)
+            want = model_user(freqs32, op["ranges"], ctx, band)
             m.apply_mask([tuple(r) for r in op["ranges"]])
             last["user"] = want
         elif op["op"] == "apply_method":
@@ -336,7 +352,7 @@ def exec_clean(sc, ctx) -> None:
                 ctx.probe("fault-raised")
                 continue
             M = np.array(rm.chan_mask, dtype=bool)
-            user = model_user(np.asarray(reader.header.chan_freqs, dtype=np.float32), sc["ranges"], ctx)
+            user = model_user(np.asarray(reader.header.chan_freqs, dtype=np.float32), sc["ranges"], ctx, (spec["fch1"], spec["foff"]))
             stats_m = model_stats([np.asarray(rm.chan_var), np.asarray(rm.chan_skew), np.asarray(rm.chan_kurt)], sc["method"], thr)
             cust = custom_fn(sc["fn"])(user | stats_m) if sc["fn"] else np.zeros(nchans, dtype=bool)
             for k, want in (("user", user), ("stats", stats_m), ("custom", cust)):
